@@ -9,6 +9,8 @@ from harness.framework import Suite
 
 PID = "C17"
 LEAN_MODS = ["SwcVerif.Props.C17"]
+TRANSLATE_ALGO = ["AlgoMst"]     # Gen/AlgoMst.lean is regenerated on every run from transforms/mst.py (the greedy loop of PointsToCuntzMST.__call__)
+DRIVER_FILES = ["SwcVerif/Model/AlgoRunMst.lean"]
 THEOREMS = ["C17.init_inv", "C17.greedy_step", "C17.step_inv", "C17.spanning", "C17.branching_limit", "C17.prim_step", "C17.prim_minimal", "C17.prim_attains"]
 TRUSTED = ["hand-written model Model/Mst.lean of the greedy loop (tied by the c17.mst correspondence: the parent array compared exactly; the model is fed "
            "the distance matrix the code computes in the dtype of the cloud (float64 or float32), as exact rationals)"]
@@ -235,7 +237,9 @@ class MstSuite(Suite):
         P = np.array(case["points"], dtype=dt)             # the matrix in the precision of the cloud handed over
         d = np.linalg.norm(P.reshape((-1, 1, 3)) - P.reshape((1, -1, 3)), axis=2)
         rows = ";".join(",".join(str(Fraction(float(v))) for v in row) for row in d)
-        return [(f"mst bf={Fraction(case['bf'])} k={case['k']} ex={int(case['exclude_soma'])} d={rows}", gen.ints(pid))]
+        args = f"bf={Fraction(case['bf'])} k={case['k']} ex={int(case['exclude_soma'])} d={rows}"
+        # `mst`: the hand-written model; `gmst`: the loop GENERATED from the current source, run at Rat on the same matrix
+        return [(f"mst {args}", gen.ints(pid)), (f"gmst {args}", gen.ints(pid))]
 
     def oracle(self, case, res):
         pts = case["points"]
